@@ -8,7 +8,7 @@ import core
 import gen
 
 PID = 'C17'
-MODULES = ['FFVerif.Proofs.C17', 'FFVerif.Proofs.C17Welch']
+MODULES = ['FFVerif.Proofs.C17', 'FFVerif.Proofs.C17Welch', 'FFVerif.Proofs.C17Full']
 
 
 def fail(res, clause, case, out, sig=None):
@@ -41,7 +41,7 @@ def explore(res, rng, n):
         if len(freq) < 3:
             continue
         psd = [rng.choice([0.0, 0.5, 1.0, 2.0, 3.5]) for _ in freq]
-        thin = rng.choice([None, None, df, 2 * df, 3 * df, 0.8 * df, 0.5 * df, 0.3 * df])      # incl. bandwidths below the grid spacing
+        thin = rng.choice([None, None, df, 2 * df, 3 * df, 0.8 * df, 0.5 * df, 0.3 * df, 2.5 * df, 1.5 * df, 1.25 * df])      # incl. bandwidths below the grid spacing
         if decimal:
             freq = [round(f, 10) for f in freq]                       # the decimal literals 0.1, 0.2, ... as a user writes them
             thin = round(rng.choice([2, 3, 3, 6, 7]) * df, 10) if rng.random() < 0.8 else thin
@@ -79,6 +79,12 @@ def explore(res, rng, n):
         comps = ','.join(f'{gen.bits(f)},{gen.bits(p)},{gen.bits(ph)}' for f, p, ph in zip(freq, psd, phases))
         reqs.append(f'synth {gen.bits(fs)} {gen.bits(bw)} {nxt} {nn} {comps}')
         meta.append((case, [float(a) for a in amps]))
+        # … and the whole function after validation (Spectral.synthFull: sample count, spacing, bandwidth, stride and phases computed by the
+        # model from the RAW arguments and normal draws)
+        raw = ','.join(f'{gen.bits(f)},{gen.bits(p)},{gen.bits(r)}' for f, p, r in zip(freq, psd, rvals))
+        reqs.append(f'synthfull {gen.bits(fs)} {gen.bits(T)} {"none" if thin is None else gen.bits(thin)} {raw}')
+        meta.append((dict(case, model='synthFull'), [float(a) for a in amps]))
+        res.stat('synthfull_bandwidth_' + ('none' if thin is None else 'below_spacing' if thin < df else 'multiple' if abs(thin / df - round(thin / df)) < 1e-9 else 'fractional'))
         # ---- durations that are not a whole number of sampling intervals: round(fs*T) samples at times k/fs
         T2 = rng.choice([4.05, 2.53, 1.26, 0.99])
         fs3 = rng.choice([8.0, 10.0, 25.0])
@@ -97,6 +103,9 @@ def explore(res, rng, n):
         comps2 = ','.join(f'{gen.bits(f)},{gen.bits(p)},{gen.bits(q)}' for f, p, q in zip(freq2, psd2, ph2))
         reqs.append(f'synth {gen.bits(fs3)} {gen.bits(0.5)} 1 {nn2} {comps2}')
         meta.append((case3, [float(a) for a in amps2]))
+        raw2 = ','.join(f'{gen.bits(f)},{gen.bits(p)},{gen.bits(r)}' for f, p, r in zip(freq2, psd2, rv2))
+        reqs.append(f'synthfull {gen.bits(fs3)} {gen.bits(T2)} none {raw2}')
+        meta.append((dict(case3, model='synthFull'), [float(a) for a in amps2]))
         # ---- estimation on an arbitrary series
         L = rng.choice([8, 9, 16, 31, 64]) if i % 6 else rng.choice([4099, 5003, 8198])      # long records with a large prime factor
         x = np.array([rng.gauss(0, 1) + rng.choice([0.0, 3.0]) for _ in range(L)])
